@@ -101,6 +101,8 @@ class Env:
 
 class IFunc:
     """An interpreted function (closure over its module namespace)."""
+    # the interpreter's own fields live in slots: functools.wraps copies the wrapped function's __dict__ into the wrapper
+    __slots__ = ('interp', 'node', 'globals', 'defcls', 'closure', '__dict__', '__weakref__')
 
     def __init__(self, interp, node, globals_, defcls=None, closure=None):
         self.interp = interp
@@ -247,8 +249,12 @@ class Interp:
         if isinstance(node, ast.Lambda):
             return self.eval(node.body, env)
         if isinstance(node, ast.AsyncFunctionDef):
-            raise Unsupported(f'async function {node.name} is not interpreted')
-        is_gen = any(isinstance(n, (ast.Yield, ast.YieldFrom)) for n in _own_nodes(node))
+            if not getattr(self, 'allow_async', False):
+                raise Unsupported(f'async function {node.name} is not interpreted')
+            return Coro(self, node, env)
+        is_gen = getattr(node, '_is_gen', None)
+        if is_gen is None:
+            is_gen = node._is_gen = any(isinstance(n, (ast.Yield, ast.YieldFrom)) for n in _own_nodes(node))
         if is_gen:
             if not getattr(self, 'allow_generators', False):
                 raise Unsupported(f'generator function {node.name} is not interpreted')
@@ -444,7 +450,7 @@ class Interp:
                 pass
             elif text in ('cached_property', 'functools.cached_property'):
                 result = property(result)
-            elif text.startswith('Parser.routine') or text.startswith('contextlib.'):
+            elif (text.startswith('Parser.routine') and not getattr(self, 'allow_async', False)) or text.startswith('contextlib.'):
                 pass
             else:
                 dec = self.eval(d, deco_env or env)
@@ -772,15 +778,18 @@ class Interp:
         if t is ast.Starred:
             raise Unsupported('starred expression outside call')
         if t is ast.Await:
-            raise Unsupported('await')
+            return self.do_await(self.eval(node.value, env))
         raise Unsupported(f'expression {t.__name__}')
 
     def _elts(self, elts, env):
+        # (a list, not a generator: a StopIteration raised by interpreted code must pass through unchanged)
+        out = []
         for e in elts:
             if isinstance(e, ast.Starred):
-                yield from self.eval(e.value, env)
+                out.extend(self.eval(e.value, env))
             else:
-                yield self.eval(e, env)
+                out.append(self.eval(e, env))
+        return out
 
     def _comp(self, node, env):
         results = []
@@ -806,6 +815,22 @@ class Interp:
         if isinstance(node, ast.DictComp):
             return dict(results)
         return iter(results)
+
+    def do_await(self, v):
+        """`await v`, synchronously.  A coroutine is run in place.  Anything else is an awaitable of the driver protocol of
+        hidc.parser.rules (its __await__ hands the object to the driver, which answers with `obj.process(position)`): the
+        innermost driver frame (pushed by the native stand-in for the driver loop, see hidverif/frontend.py) plays that part."""
+        if isinstance(v, Coro):
+            return v.run()
+        drivers = getattr(self, 'drivers', None)
+        if not drivers:
+            raise Unsupported('await outside an interpreted driver')
+        frame = drivers[-1]
+        result, cur = v.process(frame['cur'])
+        frame['cur'] = cur
+        if not frame['backtrack']:
+            frame['start'] = cur
+        return result
 
     def _set_cls(self):
         order = getattr(self, 'set_order', None)
@@ -833,6 +858,42 @@ class Interp:
         return f(*args, **kwargs)
 
 
+class _EagerIter:
+    """Iterator over an eagerly evaluated generator: ends with StopIteration carrying the generator's return value."""
+
+    def __init__(self, gen):
+        self.gen = gen
+        self.pos = 0
+
+    def __iter__(self):
+        return self
+
+    def __next__(self):
+        if self.pos < len(self.gen.items):
+            self.pos += 1
+            return self.gen.items[self.pos - 1]
+        raise StopIteration(self.gen.value)
+
+
+class Coro:
+    """The result of calling an interpreted `async def` (Interp.allow_async): arguments bound, body not yet run.  It is run,
+    synchronously, when it is awaited."""
+
+    def __init__(self, interp, node, env):
+        self.interp, self.node, self.env = interp, node, env
+        self.done = False
+
+    def run(self):
+        if self.done:
+            raise RuntimeError('cannot reuse already awaited coroutine')
+        self.done = True
+        try:
+            self.interp.exec_block(self.node.body, self.env)
+        except _Return as r:
+            return r.value
+        return None
+
+
 class EagerGen:
     """Result of eagerly evaluating a generator function: the yielded items and the return value."""
 
@@ -841,7 +902,7 @@ class EagerGen:
         self.value = None
 
     def __iter__(self):
-        return iter(self.items)
+        return _EagerIter(self)
 
     def __next__(self):
         # `next(gen)` on an eagerly evaluated generator: items in order, then StopIteration carrying the return value
